@@ -92,7 +92,8 @@ def run_slice(job: dict) -> dict:
     for ns in range(0, job["max_src"] + 1):
         for nd in range(1, job["max_dest"] + 1):
             for evenly in (True, False):
-                for maxc in ([None] if evenly else [None, 1, 2, 3, 4]):
+                for maxc in ([None, 1, 2, 5] if evenly else [None, 1, 2, 3, 4]):
+                    # (evenly=True: max_connects is documented as "only taken into account if evenly is False")
                     if not evenly and maxc is not None and ns > nd * maxc:
                         continue        # outside the documented precondition
                     for s in range(job["seeds"]):
@@ -149,7 +150,7 @@ def decide(m, tier):
 
 def evidence(m, tier, seed):
     return {"level": "exploration", "coverage": {
-        "rule": "all (|src| <= max_src, 1 <= |dest| <= max_dest, evenly, max_connects in {inf,1,2,3,4}) with "
+        "rule": "all (|src| <= max_src, 1 <= |dest| <= max_dest, evenly, max_connects in {inf,1,2,3,4}; evenly=True also with a finite max_connects, which is documented as ignored) with "
                 "|src| <= |dest|*max_connects x random seeds, on a recording world; distinct_nontrivial = distinct "
                 "(sizes, mode, cap, seed) with at least two sources and two destinations",
         "exhaustive": False,
